@@ -182,7 +182,8 @@ class Magnitude:
     def __pow__(self, power: Union[float,int]):
         value = self.value**power
         if self.error is not None:
-            error = self._rel_to_abs(self._abs_to_rel()*power)
+            # (|value * (error/value) * power|: written without the division, so that a measured zero has a power, too)
+            error = abs(self.error*power)
         else:
             error = None
         return Magnitude(value, error)
